@@ -103,6 +103,16 @@ func c05routes(st *c05state, src string, r *vf.Rec) {
 			return lisp.READWithPreamble(src, types.NewCursorFile("m"), st.env)
 		}},
 		{"Read_str(placeholders)", func() (types.MalType, error) { return reader.Read_str(src, nil, ph) }},
+		// placeholder values built from Go (no source position anywhere in them)
+		{"Read_str(placeholder = Go-built list)", func() (types.MalType, error) {
+			return reader.Read_str(src, nil, &types.HashMap{Val: map[string]types.MalType{"$x": types.List{Val: []types.MalType{types.Symbol{Val: "s"}, 1}}}})
+		}},
+		{"Read_str(placeholder = Go-built vector, cursor)", func() (types.MalType, error) {
+			return reader.Read_str(src, types.NewCursorFile("m"), &types.HashMap{Val: map[string]types.MalType{"$x": types.Vector{Val: []types.MalType{1}}}}, st.env)
+		}},
+		{"Read_str(placeholder = Go-built symbol)", func() (types.MalType, error) {
+			return reader.Read_str(src, nil, &types.HashMap{Val: map[string]types.MalType{"$x": types.Symbol{Val: "s"}}})
+		}},
 		{"read-string", func() (types.MalType, error) {
 			return lisp.EVAL(context.Background(), types.List{Val: []types.MalType{st.rs, src}}, st.env)
 		}},
@@ -233,7 +243,7 @@ func init() {
 		}
 		return &vf.Check{
 			ID: "C05", Level: "model_checking",
-			Rule:        "every string of the bounded text spaces (token sequences, raw byte sequences, preamble line sequences) is fed to 6 reader entry points under recover and a per-case watchdog; non-trivial = at least one entry point returned an AST (which is then PRINTed)",
+			Rule:        "every string of the bounded text spaces (token sequences, raw byte sequences, preamble line sequences) is fed to 9 reader entry points (3 of them with placeholder values built from Go, which carry no source position) under recover and a per-case watchdog; non-trivial = at least one entry point returned an AST (which is then PRINTed)",
 			Assumptions: []string{"texts above the length bound or outside the alphabets are not covered", "a hang is a case exceeding the 5 s watchdog (reading a text of a few tokens takes microseconds)"},
 			Families: []*vf.Family{
 				mk("tokens", fmt.Sprintf("all sequences of <=4 (quick) / <=5 (thorough) tokens over %d tokens, joined by one space", len(c05Tokens)),
